@@ -219,9 +219,25 @@ def nonce_expr(scheme, keytype):
     return ('(sys_range(old(sys_cursor()), 1, %s - 1) if self._randfunc is None else rnd_range(old(rnd_cursor()), 1, %s - 1))' % (q, q))
 
 
-def compute_nonce_contract(scheme, keytype, assumed=None):
+def nonce_loops(nonce_type):
+    """RFC 6979 3.2 step h.  Loop 0 (`for int_oct in (0x00, 0x01)`, steps d-g) is unrolled.  Loop 1 is the candidate loop, loop 2
+    the T-filling loop h.2.  The local `nonce` is the int -1 before the first candidate and an Integer afterwards; the engine
+    havocs a variable with ONE type, so the induction is run twice (units ...nonce.first / ...nonce.next): with `nonce` an int
+    (the invariant forces -1: the first pass) and with `nonce` an Integer (every later pass).  Both runs establish the same
+    invariants from the entry state and re-prove them after the body, so together they cover every loop-head state."""
+    target = det_k('ecc').replace('msg_hash', 'mhash')
+    g = ('spec.rfc6979.gen_k_from(mhash.g_alg, nonce_k, mask_v, %s, self._order._value, self._order_bits, self._order_bytes)')
+    first = 'isinstance(nonce, int) ==> (nonce == -1 and %s == %s)' % (target, g % 'b""')
+    later = ('(not isinstance(nonce, int)) ==> (len(mask_t) >= self._order_bytes and nonce._value == spec.rfc6979.bits2int(mask_t, self._order_bits) '
+             'and %s == %s)' % (target, g % 'mask_t'))
+    fill = '%s == %s' % (target, g % 'mask_t')
+    return {1: {'invariant': [first, later], 'types': {'nonce': nonce_type, 'mask_t': 'bytes'}},
+            2: {'invariant': [fill]}}
+
+
+def compute_nonce_contract(scheme, keytype, assumed=None, nonce_type=OINT):
     if scheme == DET:
-        return Contract(D + DET + '._compute_nonce', params={'mhash': OHASH},
+        return Contract(D + DET + '._compute_nonce', params={'mhash': OHASH}, loops=nonce_loops(nonce_type),
                         requires=['self._private_key is not None',
                                   '0 < self._private_key._value and self._private_key._value < self._order._value'],
                         raises={},
@@ -298,7 +314,7 @@ def helper_contracts(reg, blen=None, bits=None):
                      modifies=[], result='bytes', options={'int_lemmas': sorted({8 * blen, bits, bits - 1, abs(8 * blen - bits)}) if blen is not None else []}))
 
 
-def registry(scheme=DET, keytype='ecc', bits=None, blen=None):
+def registry(scheme=DET, keytype='ecc', bits=None, blen=None, nonce_type=OINT):
     reg = common_registry()
     add_ecc_key(reg)
     add_dsa_key(reg)
@@ -308,7 +324,7 @@ def registry(scheme=DET, keytype='ecc', bits=None, blen=None):
     reg.add(ClassContract(D + scheme, fields=scheme_fields(scheme, keytype, bits), valid=scheme_valid(scheme, keytype)))
     reg.add(valid_hash_contract(scheme, keytype))
     if scheme == DET:
-        reg.add(compute_nonce_contract(scheme, keytype))
+        reg.add(compute_nonce_contract(scheme, keytype, nonce_type=nonce_type))
     else:
         add_entropy_contract(reg, compute_nonce_contract(scheme, keytype), draws_by_randfunc())
     if scheme == DET:
